@@ -21,7 +21,7 @@ theorem get_erase (m : Map V) (k k' : Nat) :
     unfold erase at ih ⊢
     by_cases h : a = k
     · simp [h, get_cons]; grind
-    · simp [h, get_cons, ih]; grind
+    · simp [h, get_cons]; grind
 
 theorem get_set (m : Map V) (k : Nat) (v : V) (k' : Nat) :
     get (set m k v) k' = if k' = k then some v else get m k' := by
